@@ -229,7 +229,9 @@ class Run:
         for f in self.findings:
             if f.get("status") == "fixed":
                 continue  # a fixed entry suppresses nothing
-            m = f.get("match", {})
+            m = f.get("match")
+            if not m:
+                continue  # identified by a specification deviation, never by a rejected line
             if "stage" in m and m["stage"] != stage:
                 continue
             if "what_re" in m and not re.search(m["what_re"], ev.get("what", "") or describe(ev)):
